@@ -110,6 +110,11 @@ def check(prop, tier, seed, replay=None):
     if herr:
         print("HARNESS ERROR (implementation runner):", herr[0]["harness_error"])
         print(herr[0].get("tb", ""))
+    if herr:
+        # keep going with the cases the runner did handle; the failure itself is reported below
+        keep = [i for i, o in enumerate(obs) if not (isinstance(o, dict) and "harness_error" in o)]
+        cases = [cases[i] for i in keep]
+        obs = [obs[i] for i in keep]
     terms = [mod.coq_case(c, o) for c, o in zip(cases, obs)]
     spec_fail, model_fail, aux_fail, errors = C.run_shards(
         prop, mod.IMPORTS, mod.CASE_TYPE, mod.RUN_FN, terms,
